@@ -135,6 +135,11 @@ def toy_block(draw, i, kind):
     elif kind == "dirichlet":
         n = draw(st.integers(2, 5))
         b.update(n=n, alpha=[draw(fl(1.5, 6.0)) for _ in range(n)], init=draw(simplex(n, spread=draw(fl(0.0, 2.0)))))
+    elif kind == "gmrf":
+        # field ~ GMRF(precision); the precision is a positive parameter sampled WITHOUT a transform and without a
+        # validated prior: outside its support the target is NaN (not an exception), the case MCMC.run rejects outright
+        n = max(n, 2)
+        b.update(n=n, init=[draw(fl(-2.0, 2.0)) for _ in range(n)], tau_init=draw(logu(0.3, 3.0)))
     elif kind == "hnormal":
         n = max(n, 2)
         b.update(n=n, init=[draw(fl(-3.0, 3.0)) for _ in range(n)], m_loc=draw(fl(-2.0, 2.0)), m_scale=draw(logu(0.5, 3.0)), m_init=draw(fl(-2.0, 2.0)),
@@ -142,7 +147,7 @@ def toy_block(draw, i, kind):
     return b
 
 
-REAL_KINDS = ["normal", "normal", "loggamma", "mvn", "hnormal"]
+REAL_KINDS = ["normal", "normal", "loggamma", "mvn", "hnormal", "gmrf", "gmrf"]
 POS_KINDS = ["gamma", "gamma", "lognormal"]
 
 
@@ -174,7 +179,9 @@ def phylo_target(draw):
     p = {"n": n, "topology": draw(st.integers(0, 2)),
          "seqs": ["".join(draw(st.sampled_from("ACGTACGTACGTACGTN-")) for _ in range(nsites)) for _ in range(n)],
          "bl": [draw(logu(0.01, 0.5)) for _ in range(2 * n - 3)], "kappa": draw(logu(0.5, 8.0)), "kappa_log": draw(st.booleans()),
-         "freqs": draw(simplex(4, spread=draw(fl(0.0, 1.5)))), "freqs_alpha": draw(fl(1.5, 5.0))}
+         "freqs": draw(simplex(4, spread=draw(fl(0.0, 1.5)))), "freqs_alpha": draw(fl(1.5, 5.0)),
+         # flat prior on the branch lengths: nothing validates them, a negative length makes the likelihood NaN
+         "flat_bl": draw(st.booleans())}
     if draw(st.booleans()):
         p["shape"] = draw(logu(0.2, 5.0))
         p["categories"] = draw(st.integers(2, 4))
@@ -188,7 +195,10 @@ def params_of(c):
         out = []
         for b in c["blocks"]:
             k = b["kind"]
-            if k == "hnormal":
+            if k == "gmrf":
+                out.append((b["id"], "real", b["init"]))
+                out.append((b["id"] + ".tau", "posfree", [b["tau_init"]]))
+            elif k == "hnormal":
                 out.append((b["id"] + ".m", "real", [b["m_init"]]))
                 out.append((b["id"] + ".s", "positive", [b["s_init"]]))
                 out.append((b["id"], "real", b["init"]))
@@ -202,7 +212,7 @@ def params_of(c):
     if t == "skygrid":
         return [("theta.log", "real", c["gamma"]), ("tau", "positive", [c["tau"]])]
     p = c["phylo"]
-    out = [("bl", "positive", p["bl"])]
+    out = [("bl", "posfree" if p.get("flat_bl") else "positive", p["bl"])]
     out.append(("kappa.log", "real", [math.log(p["kappa"])]) if p["kappa_log"] else ("kappa", "positive", [p["kappa"]]))
     out.append(("freqs", "simplex", p["freqs"]))
     if "shape" in p:
@@ -225,17 +235,18 @@ def subset(draw, ids, kmax=3):
 def operators(draw, c):
     ps = params_of(c)
     real = [i for i, k, _ in ps if k == "real"]
-    pos = [i for i, k, _ in ps if k == "positive"]
+    free = [i for i, k, _ in ps if k == "posfree"]  # positive, no transform, out of support = non-finite target
+    pos = [i for i, k, _ in ps if k == "positive"] + free
     sim = [i for i, k, _ in ps if k == "simplex"]
     size = {i: len(v) for i, _, v in ps}
     avail = []
     if pos:
         avail.append("scaler")
-    if real:
+    if real or free:
         avail.append("sliding")
     if sim:
         avail += ["dirichlet"]
-    if c["target"] == "toy" and real:
+    if c["target"] == "toy":
         avail += ["hmc"]
     if c["target"] == "skygrid":
         avail += ["block", "block"]
@@ -252,7 +263,10 @@ def operators(draw, c):
             o["params"] = draw(subset(pos))
             o["tuning"] = draw(logu(1e-3, 0.95))
         elif kind == "sliding":
-            o["params"] = draw(subset(real))
+            # on unconstrained parameters, or on positive ones whose out-of-support value gives a non-finite
+            # target (outright rejection in MCMC.run); never on a parameter whose density validates its argument
+            o["params"] = draw(subset(real + free + free))
+            o["params"] = [i for k_, i in enumerate(o["params"]) if i not in o["params"][:k_]]
             o["tuning"] = draw(logu(0.01, 10.0))
         elif kind == "dirichlet":
             o["params"] = [draw(st.sampled_from(sim))]
@@ -262,9 +276,11 @@ def operators(draw, c):
             o["params"] = ["theta.log", "tau"]
             o["tuning"] = draw(st.one_of(st.just(1.0), logu(1.05, 5.0), logu(1.05, 5.0), logu(1.05, 5.0)))
         else:
-            o["params"] = draw(subset(real))
+            # unconstrained parameters, and positive ones sampled without a transform: a trajectory that leaves
+            # the support raises inside the operator (argument validation / NaN potential) and is retried
+            o["params"] = draw(subset(real + pos))
             d = sum(size[i] for i in o["params"])
-            o["tuning"] = draw(logu(1e-3, 0.3))
+            o["tuning"] = draw(logu(1e-3, 0.3)) if all(i in real for i in o["params"]) else draw(logu(1e-2, 1.5))
             o["steps"] = draw(st.integers(1, 8))
             mk = draw(st.sampled_from(["identity", "diag", "dense"]))
             if mk == "identity":
@@ -329,6 +345,8 @@ def target_spec(c, state):
                 dists.append(_dist("d." + x, "LogNormal", x, loc=b["loc"], scale=b["scale"]))
             elif k == "dirichlet":
                 dists.append(_dist("d." + x, "Dirichlet", x, concentration=b["alpha"]))
+            elif k == "gmrf":
+                dists.append({"id": "d." + x, "type": "GMRF", "x": x, "precision": x + ".tau"})
             else:
                 dists.append(_dist("d." + x + ".m", "Normal", x + ".m", loc=[b["m_loc"]], scale=[b["m_scale"]]))
                 dists.append(_dist("d." + x + ".s", "Gamma", x + ".s", concentration=[b["s_conc"]], rate=[b["s_rate"]]))
@@ -362,7 +380,7 @@ def target_spec(c, state):
             "tree_model": {"id": "tree", "type": "UnRootedTreeModel", "newick": newick, "branch_lengths": "bl", "taxa": "taxa"},
             "site_model": site, "substitution_model": {"id": "subst", "type": "HKY", "kappa": "kappa", "frequencies": "freqs"},
             "site_pattern": {"id": "patterns", "type": "SitePattern", "alignment": "alignment"}}
-    dists = [like, _dist("prior.bl", "Exponential", "bl", rate=10.0), _dist("prior.kappa", "LogNormal", "kappa", loc=1.0, scale=1.25),
+    dists = [like] + ([] if p.get("flat_bl") else [_dist("prior.bl", "Exponential", "bl", rate=10.0)]) + [_dist("prior.kappa", "LogNormal", "kappa", loc=1.0, scale=1.25),
              _dist("prior.freqs", "Dirichlet", "freqs", concentration=[p["freqs_alpha"]] * 4)] + dists + extra
     out.append({"id": "joint", "type": "JointDistributionModel", "distributions": dists})
     return out
@@ -450,6 +468,8 @@ def toy_logp(c, state):
             tot += float(np.sum(-np.log(x) - np.log(s) - 0.5 * _L2PI - 0.5 * ((np.log(x) - m) / s) ** 2))
         elif k == "dirichlet":
             tot += _dir_logpdf(x, b["alpha"])
+        elif k == "gmrf":
+            tot += og.gmrf_logpdf(x, float(state[b["id"] + ".tau"][0]), np.ones(len(x) - 1))
         else:
             m = float(state[b["id"] + ".m"][0])
             s = float(state[b["id"] + ".s"][0])
@@ -478,6 +498,13 @@ def toy_grad(c, state, ids):
             elif k == "hnormal":
                 m, s = float(state[i + ".m"][0]), float(state[i + ".s"][0])
                 out.append(-(x - m) / (s * s))
+            elif k == "gamma":
+                out.append((np.asarray(b["conc"]) - 1.0) / x - np.asarray(b["rate"]))
+            elif k == "lognormal":
+                out.append(-1.0 / x - (np.log(x) - np.asarray(b["loc"])) / (np.asarray(b["scale"]) ** 2 * x))
+            elif k == "gmrf":
+                tau = float(state[i + ".tau"][0])
+                out.append(-tau * (og.gmrf_structure(np.ones(len(x) - 1)) @ x))
             else:
                 raise HarnessError("no gradient for block kind %s" % k)
         elif i.endswith(".m"):
@@ -485,6 +512,15 @@ def toy_grad(c, state, ids):
             xx = np.asarray(state[b["id"]], float)
             s = float(state[b["id"] + ".s"][0])
             out.append(np.array([np.sum(xx - x[0]) / (s * s) - (x[0] - b["m_loc"]) / b["m_scale"] ** 2]))
+        elif i.endswith(".s"):
+            b = by[i[:-2]]
+            xx = np.asarray(state[b["id"]], float)
+            m = float(state[b["id"] + ".m"][0])
+            out.append(np.array([(b["s_conc"] - 1.0) / x[0] - b["s_rate"] + np.sum((xx - m) ** 2) / x[0] ** 3 - len(xx) / x[0]]))
+        elif i.endswith(".tau"):
+            b = by[i[:-4]]
+            xx = np.asarray(state[b["id"]], float)
+            out.append(np.array([(len(xx) - 1) / (2.0 * x[0]) - 0.5 * float(np.sum(np.diff(xx) ** 2))]))
         else:
             raise HarnessError("no gradient for parameter %s" % i)
     return np.concatenate(out)
@@ -799,15 +835,28 @@ def hastings_oracle(c, o, op, r):
     mass = np.asarray(o["mass"], float)
     minv = lf.invert_mass(mass)
 
+    kinds = {i: k for i, k, _ in params_of(c)}
+    positive = np.concatenate([np.full(n, kinds[i] in ("positive", "posfree")) for i, n in zip(ids, sizes)])
+
     def grad(q):
+        # a position outside the support of a parameter sampled without a transform has no gradient: the operator's
+        # trial fails there (argument validation or NaN potential) and the reference trajectory ends (non-finite)
+        if np.any(q[positive] <= 0.0) or not np.all(np.isfinite(q)):
+            return np.full(q.shape, np.nan)
         s = dict(state)
         k = 0
         for i, n in zip(ids, sizes):
             s[i] = q[k:k + n].tolist()
             k += n
-        return toy_grad(c, s, ids)
+        with np.errstate(all="ignore"):
+            return toy_grad(c, s, ids)
 
     eps, L = r["tp"], o["steps"]
+    # every momentum the operator drew is recorded; all but the last belong to abandoned trials
+    info.update(trials=len(r["momenta"]))
+    for pm in r["momenta"][:-1]:
+        if lf.leapfrog(q0, _np(pm), eps, L, minv, grad)["finite"]:
+            info["abandoned_trial_inside_support"] = True
     base = lf.leapfrog(q0, p0, eps, L, minv, grad)
     amp, _ = lf.probe(q0, p0, eps, L, minv, grad, base=base)
     info.update(amplification=amp)
@@ -1002,6 +1051,10 @@ def _body(c, tmp):
             if problem:
                 fail(problem, dict(where, **info), cls)
             unguarded = bool(info.get("unguarded"))
+            if info.get("trials", 1) > 1:
+                labels["hmc_retried_then_succeeded"] = labels.get("hmc_retried_then_succeeded", 0) + 1
+            if info.get("abandoned_trial_inside_support"):
+                labels["hmc_abandoned_trial_inside_support(reference)"] = labels.get("hmc_abandoned_trial_inside_support(reference)", 0) + 1
             if unguarded:
                 labels["unguarded:" + o["type"]] = labels.get("unguarded:" + o["type"], 0) + 1
             if H_ref is not None and not problem:
@@ -1021,7 +1074,12 @@ def _body(c, tmp):
         # ---- (a) density used for the proposal
         f_cur = fresh(s_before)
         used = None
+        # acceptance probability of THIS iteration's proposal, min(1, exp(delta + H)); 0 when the proposal is rejected
+        # outright (the operator could not propose: infinite ratio; or the target is 0 / undefined at the proposed state)
+        alpha_ref = None
+        outright = False
         if gave_up:
+            alpha_ref, outright = 0.0, True
             if calls or us or accepted:
                 fail("gave_up_not_rejected", dict(where, joint_calls=len(calls), uniforms=len(us), accepted=accepted), cls)
         else:
@@ -1039,6 +1097,8 @@ def _body(c, tmp):
                 finite = math.isfinite(f_prop)
                 if not finite:
                     labels["nonfinite_proposal"] = labels.get("nonfinite_proposal", 0) + 1
+                    if math.isnan(f_prop) or f_prop < 0:
+                        alpha_ref, outright = 0.0, True
                     if accepted:
                         fail("accepted_nonfinite", dict(where, fresh=f_prop), cls)
                 elif (H_ref is not None or (unguarded and math.isfinite(H_impl))) and math.isfinite(f_cur):
@@ -1048,7 +1108,7 @@ def _body(c, tmp):
                     else:
                         u = float(us[0][3].reshape(-1)[0])
                         nchecked["b"] += 1
-                        alpha = math.exp(min(0.0, la))
+                        alpha = alpha_ref = math.exp(min(0.0, la))
                         margin = abs(math.log(u) - la) if u > 0 else math.inf
                         if la < 0 and margin < 1e-7:
                             labels["decision_tie"] = labels.get("decision_tie", 0) + 1
@@ -1056,6 +1116,11 @@ def _body(c, tmp):
                             fail("decision", dict(where, u=u, alpha=alpha, accepted=accepted, delta=f_prop - f_cur, hastings=H_ref if H_ref is not None else H_impl), cls)
                         if "acc_prob" in r and not abs(r["acc_prob"] - alpha) <= 1e-7:
                             fail("acceptance_probability", dict(where, passed_to_tune=r["acc_prob"], reference=alpha, delta=f_prop - f_cur, hastings=H_ref if H_ref is not None else H_impl), cls)
+        if outright:
+            labels["outright_rejection"] = labels.get("outright_rejection", 0) + 1
+            # the acceptance probability handed to tune() must be the one of this proposal: 0
+            if "acc_prob" in r and not abs(r["acc_prob"]) <= 1e-12:
+                fail("acceptance_probability", dict(where, passed_to_tune=r["acc_prob"], reference=0.0, outright_rejection="operator gave up" if gave_up else "non-finite target"), cls, outright=True)
         # ---- (d) state after the decision
         after = r["after"]
         nchecked["d"] += 1
@@ -1081,13 +1146,15 @@ def _body(c, tmp):
             else:
                 nchecked["f"] += 1
                 move = (tp1 - tp0) * signs[o["type"]]
+                if alpha_ref is not None:  # judged by this iteration's own acceptance probability, whatever tune() was handed
+                    acc = alpha_ref
                 side = "above" if acc > o["target_acc"] else ("below" if acc < o["target_acc"] else None)
                 bad = (side == "above" and move < 0) or (side == "below" and move > 0)
                 if bad:
                     extra = {}
                     if cls == BLOCK:
                         extra["reflected"] = bool(math.sqrt(max(tp0 - 1.0, 0.0)) + (acc - o["target_acc"]) / (2 + r["adapt_count"]) < 0)
-                    fail("tune_direction", dict(where, acceptance=acc, target=o["target_acc"], tuning_before=tp0, tuning_after=tp1,
+                    fail("tune_direction", dict(where, acceptance=acc, passed_to_tune=r["acc_prob"], outright_rejection=outright, target=o["target_acc"], tuning_before=tp0, tuning_after=tp1,
                                                 bolder_when_tuning_parameter="grows" if signs[o["type"]] > 0 else "shrinks"), cls, side=side, **extra)
         cur = r.get("end", after)
         state_at[r["epoch"]] = after
@@ -1194,9 +1261,10 @@ def selftest():
         {"kind": "hnormal", "id": "x3", "n": 3, "init": [0.5, -0.3, 1.2], "m_loc": 0.2, "m_scale": 1.5, "m_init": 0.4, "s_conc": 2.0, "s_rate": 1.0, "s_init": 0.8},
         {"kind": "gamma", "id": "x4", "n": 1, "conc": [2.0], "rate": [1.0], "init": [1.3]},
         {"kind": "lognormal", "id": "x5", "n": 1, "loc": [0.2], "scale": [0.6], "init": [0.9]},
-        {"kind": "dirichlet", "id": "x6", "n": 3, "alpha": [2.0, 3.0, 4.0], "init": [0.2, 0.3, 0.5]}]}
+        {"kind": "dirichlet", "id": "x6", "n": 3, "alpha": [2.0, 3.0, 4.0], "init": [0.2, 0.3, 0.5]},
+        {"kind": "gmrf", "id": "x7", "n": 3, "init": [0.4, -0.3, 0.9], "tau_init": 1.7}]}
     state = {i: list(v) for i, _, v in params_of(c)}
-    ids = ["x0", "x1", "x2", "x3", "x3.m"]
+    ids = ["x0", "x1", "x2", "x3", "x3.m", "x3.s", "x4", "x5", "x7", "x7.tau"]
     g = toy_grad(c, state, ids)
     k = 0
     for i in ids:
